@@ -201,6 +201,7 @@ def rules(ck, P):
             ck.check(okp, "R-COVER-VT", opn[0]["q"], "the advertised pyramid comes from the block index", "advertised pyramid does not come from the block index", ir.loc(opn[0]))
 
     pm_cover_rules(ck, P)
+    comp.pyramid_union_rule(ck, P, "R-COVER-OPS")
 
     # ---------------- mbtiles
     mb = [b for b in P.bodies if b["q"].endswith("mbtiles::reader::MBTilesReader::get_bbox_pyramid")]
